@@ -316,6 +316,12 @@ impl World {
                     self.register_clone(e, &roots);
                     json!(roots.iter().map(|r| self.spec_ref(*r)).collect::<Vec<_>>())
                 }
+                "rawtrip" => {
+                    let dom = self.doms[d.unwrap()].take().unwrap();
+                    let (root, map) = dom.into_raw();
+                    self.doms[d.unwrap()] = Some(WeakDom::from_raw(root, map));
+                    json!(null)
+                }
                 "setref" => {
                     let r = self.real(op["r"].as_i64().unwrap());
                     let s = op["s"].as_i64().unwrap();
@@ -506,6 +512,8 @@ fn random_steps(w: &mut World, rng: &mut StdRng, steps: usize, uid_pool: i64, la
                         json!({"op": "clone", "d": d + 1, "rs": [r], "e": 2 - d, "multi": true})
                     }
                 }
+            } else if choice < 93 {
+                json!({"op": "rawtrip", "d": d + 1})
             } else if num_slots > 0 {
                 let r = live[rng.gen_range(0..live.len())];
                 let v = rng.gen_range(0..=w.refs.len() as i64);
